@@ -188,6 +188,13 @@ def k_frame(ctx, d):
         if d["fecf"] is None:
             over.update(has_fecf=False, fecf_len=2)
         variants.append(("absent_zone_with_size", props_for(d, total, **over)[1]))
+    if d["iz"] is None or d["fecf"] is None:
+        # a second set of managed parameters built the same way and then reconfigured through its public attributes (another
+        # channel's): the set used for this frame must not have moved
+        _, other = props_for(d, total)
+        other.insert_zone_properties.present, other.insert_zone_properties.size = True, 4
+        other.fecf_properties.present, other.fecf_properties.size = True, 2
+        ctx.table("managed_parameter_sets", "sibling_reconfigured")
     for pname, props in variants:
       for sfx in (((b"", b"\xee" * 5) if d["ftype"] != "fixed" else (b"",)) if pname == "as_built" else (b"",)):
           ok, u = attempt(uf.TransferFrame.unpack, want + sfx, ft, props)
